@@ -72,6 +72,7 @@ var (
 	slotKeys = map[string][]byte{
 		"K0": word(1), "K1": word(2), "K2": append([]byte{0x80}, word(3)[1:]...),
 		"S0": {0x61}, "S1": {0x62},
+		"KX": word(99), // never written: the "absent slot" of the read operations
 	}
 	slotVals = map[string][]byte{
 		"VA": bytes.Repeat([]byte{0xaa}, 32), "VB": bytes.Repeat([]byte{0xbb}, 32), "vs": {0x07},
@@ -117,7 +118,7 @@ func bigSlotVal(i int, gen int) []byte {
 // alphabet: operations, block templates, histories
 
 type Op struct {
-	K    string `json:"k"`              // nonce | slot | code | suicide | bal | bigslots | snap (Snapshot) | revert (RevertToSnapshot of the innermost open snapshot)
+	K    string `json:"k"`              // nonce | slot | code | suicide | bal | bigslots | read (Val: exist|nonce|codehash|code|absent|bal) | snap (Snapshot) | revert (RevertToSnapshot of the innermost open snapshot)
 	A    int    `json:"a"`              // account index
 	N    uint64 `json:"n,omitempty"`    // nonce / balance / number of big slots
 	Key  string `json:"key,omitempty"`  // slot key name
@@ -150,9 +151,11 @@ type tmpl struct {
 	big  bool
 }
 
-// Every template that touches an account itself (slot / code) also gives it a positive nonce in the
-// same block: accounts with nonce 0, no code and untouched storage are deleted by Commit(true)
-// ("empty account" rule), which is C02/C04 territory and deliberately kept out of this model.
+// Every template that writes to one of the ordinary accounts A0..A2 (slot / code) also gives it a
+// positive nonce in the same block: a DIRTY account object with nonce 0, no code and none of its
+// slots cached is deleted by Commit(true) even if it has storage (C02/C04 territory, deliberately
+// kept out of this model).  The storage-only accounts A3/A4 are therefore only created, extended
+// and loaded (see the S/R templates).
 func templates(thorough bool) []tmpl {
 	big := []Op{}
 	for i := 0; i < nAcct; i++ {
@@ -194,6 +197,26 @@ func templates(thorough bool) []tmpl {
 		tmpl{name: "J4", ops: []Op{sn, {K: "nonce", A: 0, N: 41}, {K: "code", A: 0, Code: "c24k0"}, {K: "slot", A: 0, Key: "K2", Val: "VB"},
 			{K: "suicide", A: 1}, {K: "bal", A: 2, N: 9}, rv, {K: "bal", A: 1, N: 4}}},
 	)
+	// Durable storage-only accounts (nonce 0, no code, real storage: what every funded-but-silent
+	// account, token binding and escrow account looks like; the balance-keeping account written by
+	// "bal" is one, too) and blocks that merely LOAD them -- no write, no slot of theirs cached --
+	// while changing something else.  A3/A4 are reserved for this family: apart from these templates
+	// only the oversized blocks (which give them a positive nonce) touch them.
+	rd := func(a int, what string) Op { return Op{K: "read", A: a, Val: what, Key: "KX"} }
+	t = append(t,
+		tmpl{name: "S1", ops: []Op{{K: "slot", A: 3, Key: "K0", Val: "VA"}, {K: "slot", A: 3, Key: "K1", Val: "VB"},
+			{K: "slot", A: 4, Key: "S0", Val: "vs"}}},
+		tmpl{name: "R1", ops: []Op{rd(3, "exist"), rd(3, "nonce"), rd(3, "codehash"), rd(3, "code"), rd(3, "absent"),
+			rd(4, "absent"), rd(4, "bal"), {K: "nonce", A: 0, N: 91}, {K: "slot", A: 0, Key: "K0", Val: "VB"}}},
+	)
+	if thorough {
+		t = append(t,
+			// a single Exist / GetNonce, the other change being a balance (touches the balance-keeping account)
+			tmpl{name: "R2", ops: []Op{rd(3, "exist"), rd(4, "nonce"), {K: "bal", A: 1, N: 6}}},
+			// more storage on an existing storage-only account, reads on the other one
+			tmpl{name: "S2", ops: []Op{{K: "slot", A: 3, Key: "K2", Val: "VL"}, rd(4, "codehash"), rd(3, "bal")}},
+		)
+	}
 	if thorough {
 		t = append(t,
 			// inner revert, more changes, outer revert; a different account survives
@@ -232,6 +255,15 @@ func templates(thorough bool) []tmpl {
 	return t
 }
 
+func hasJournal(ops []Op) bool {
+	for _, o := range ops {
+		if o.K == "snap" {
+			return true
+		}
+	}
+	return false
+}
+
 func init() {
 	// Template sanity (journal-aware, done by running the model): nothing touches an account after the
 	// block destroyed it, every revert has an open snapshot, and every account left with storage or
@@ -255,9 +287,28 @@ func init() {
 				}
 			}
 			if !allExist {
-				for i := range m.A {
+				for i := 0; i < 3; i++ {
 					if (len(m.A[i].Slots) > 0 || m.A[i].Code != nil) && (m.A[i].Nonce == 0 || !touched[i]) {
 						panic("template " + t.name + ": account left with storage/code but without a positive nonce")
+					}
+				}
+			}
+			// the storage-only family A3/A4: never cleared, reverted or destroyed, and written only by
+			// adding slots or together with a positive nonce
+			for _, o := range t.ops {
+				if o.A >= 3 && !touched[o.A] {
+					switch {
+					case o.K == "read", o.K == "slot" && o.Val != "":
+					case o.K == "snap", o.K == "revert":
+					default:
+						panic("template " + t.name + ": " + o.K + " on a storage-only account without a positive nonce")
+					}
+				}
+			}
+			if hasJournal(t.ops) {
+				for _, o := range t.ops {
+					if o.A >= 3 && o.K != "snap" && o.K != "revert" {
+						panic("template " + t.name + ": journal activity and a storage-only account in one template")
 					}
 				}
 			}
@@ -367,6 +418,8 @@ func (m *model) apply(o Op) {
 		*m = *saved
 		m.stack = rest
 		return
+	case "read":
+		return
 	}
 	if m.dead[o.A] && o.K != "bal" {
 		panic("template: operation on an account destroyed earlier in the same block")
@@ -393,7 +446,7 @@ func (m *model) apply(o Op) {
 	case "suicide":
 		// Suicide of an account that does not exist is a no-op; all accounts that exist have nonce > 0
 		// (template rule), so existence == nonce > 0 in this alphabet.
-		if a.Nonce > 0 {
+		if a.Nonce > 0 || len(a.Slots) > 0 {
 			a.Nonce, a.Code, a.Slots = 0, nil, map[string][]byte{}
 			m.Bal[o.A] = 0
 			m.dead[o.A] = true
@@ -404,6 +457,24 @@ func (m *model) apply(o Op) {
 func applyReal(st *account.AccountDB, o Op, snaps *[]int) {
 	ad := accts[o.A]
 	switch o.K {
+	case "read":
+		// accesses that load the account object without dirtying it or caching one of its slots
+		switch o.Val {
+		case "exist":
+			st.Exist(ad)
+		case "nonce":
+			st.GetNonce(ad)
+		case "codehash":
+			st.GetCodeHash(ad)
+		case "code":
+			st.GetCode(ad)
+		case "absent":
+			st.GetData(ad, slotKeys[o.Key]) // a slot no template ever sets on this account
+		case "bal":
+			st.GetBalance(ad) // an address that never holds a balance: loads the balance-keeping account only
+		default:
+			panic("unknown read " + o.Val)
+		}
 	case "snap":
 		*snaps = append(*snaps, st.Snapshot())
 	case "revert":
@@ -624,23 +695,34 @@ func runHistoryEx(h History, scale, failAt, mapVar int, reexec bool) (tr *trace)
 		retried := false
 		guard := ""
 		p, v, site := fw.Try(func() {
+			// Oracle guard (never a C03 verdict): the block is first executed on a SHADOW state object
+			// that is never committed; what is readable from it must be what the model says (accounts
+			// destroyed in this block excepted: they stay readable until a commit deletes them).  A
+			// disagreement means the model does not describe this history; the history is cut here.
+			// The committing state object below is never read by the harness, so it holds exactly the
+			// objects and cached slots the block's own operations left in it.
+			var snapIDs []int
+			sh, err := account.NewAccountDB(parentRoot, live)
+			if err != nil {
+				cerr = fmt.Errorf("open parent: %v", err)
+				return
+			}
+			for _, o := range blk.Ops {
+				applyReal(sh, o, &snapIDs)
+			}
+			skip := snap.dead
+			if f, d := compareAPIEx(sh, snap, &skip); f != "" {
+				guard = fmt.Sprintf("block %d %s: %s", bi, f, d)
+				return
+			}
 			st, err := account.NewAccountDB(parentRoot, live)
 			if err != nil {
 				cerr = fmt.Errorf("open parent: %v", err)
 				return
 			}
-			var snapIDs []int
+			snapIDs = nil
 			for _, o := range blk.Ops {
 				applyReal(st, o, &snapIDs)
-			}
-			// Oracle guard (never a C03 verdict): what is readable from the state object before the
-			// commit must be what the model says (accounts destroyed in this block excepted: they stay
-			// readable until the commit deletes them).  A disagreement means the model does not describe
-			// this history; the history is cut here.  The guard does not touch the commit machinery.
-			skip := snap.dead
-			if f, d := compareAPIEx(st, snap, &skip); f != "" {
-				guard = fmt.Sprintf("block %d %s: %s", bi, f, d)
-				return
 			}
 			commit := func() error {
 				r, err := st.Commit(true)
@@ -1331,13 +1413,13 @@ func main() {
 	fw.Main(fw.Check{
 		ID: "C03", Level: "fault_enumeration",
 		Rule: "evaluation = (history, write-granularity, map-order variant, prefix p of the physical write log) with all acknowledged and all on-disk-top-node roots cold-opened and walked, " +
-			"plus (history, failing write p) re-commit cases; histories = all sequences of 1..3 block templates (quick 12, thorough 20 templates, among them 4 / 8 with in-block Snapshot/RevertToSnapshot activity; at most 1 / 2 oversized blocks) x fork shapes (2 blocks: second on the first or on the empty state; 3 blocks: last block on the second, on the first = sibling fork committed after its competitor, thorough also on the empty state); " +
+			"plus (history, failing write p) re-commit cases; histories = all sequences of 1..3 block templates (quick 14, thorough 24 templates, among them 4 / 8 with in-block Snapshot/RevertToSnapshot activity and 2 / 4 that create storage-only accounts (nonce 0, no code) or merely load them without dirtying; at most 1 / 2 oversized blocks) x fork shapes (2 blocks: second on the first or on the empty state; 3 blocks: last block on the second, on the first = sibling fork committed after its competitor, thorough also on the empty state); " +
 			"non-trivial = prefix strictly inside one commit (not at a block boundary, not 0) or a write fault that was actually injected",
 		Assumptions: []string{
 			"one Batch.Write / Put / Delete is atomic and ordered (LevelDB journal semantics); torn writes inside one batch and fsync loss on power failure are outside the bound",
 			"granularities: real value sizes (flush rule ValueSize() >= IdealBatchSize as shipped), and harness batches that over-report ValueSize (x50, x2^20) so that the repository's own flush rule places a batch boundary every 2 KB / after every node; every such boundary is reachable with real (larger) values",
 			"map iteration order inside the commit path is fixed by the harness (quick 2 variants: first / last start position; thorough also the two alternating patterns) so that the write log is a function of the case",
-			"the model keeps out of the empty-account deletion rule: every template that touches an account gives it a positive nonce; before every commit the model is cross-checked against what the state object itself returns (accounts destroyed in that block excepted) and a disagreement cuts the history there instead of flagging C03",
+			"the model keeps out of the dirty-and-empty()-looking deletion rule: every template that writes to one of the ordinary accounts gives it a positive nonce, the storage-only accounts are only created, extended and read; before every commit the block is executed on a shadow state object that is never committed and the model is cross-checked against what that object returns (the committing object is never read by the harness) (accounts destroyed in that block excepted) and a disagreement cuts the history there instead of flagging C03",
 			"write fault = the write returns an error and nothing of it reaches the disk; the harness then issues the commit again, once on the same state object (what AddBlockOnChain does with its verifiedBlocks cache) and once by executing the block again from the parent root",
 		},
 		Run: run, Replay: replay,
